@@ -27,6 +27,7 @@ import (
 type Args struct {
 	PID, PW, PW2   string
 	NoPW2          bool
+	NoPW           bool // register: the password field is not sent at all
 	RM             bool
 	RMVal          string // literal value of the rm parameter when it is present but not "true"
 	Redir          string
@@ -509,7 +510,9 @@ func (m *M) spec(route string, a Args) (routeSpec, url.Values, map[string]string
 		return routeSpec{"POST", "/auth/otp/clear", ""}, q, form
 	case "register":
 		form["email"] = a.PID
-		form["password"] = a.PW
+		if !a.NoPW {
+			form["password"] = a.PW
+		}
 		if !a.NoPW2 {
 			form["confirm_password"] = a.PW2
 		}
@@ -768,6 +771,9 @@ func (m *M) HTTP(b, route string, a Args, fault *world.Fault) *world.Result {
 					if tok == "" {
 						tok = u.Query().Get("token")
 					}
+					if tok != "" {
+						m.Secrets[tok] = "mailtoken:undelivered"
+					}
 					if strings.Contains(u.Path, "/email/verify/end") {
 						fresh = tok
 					} else if raw, err := base64.URLEncoding.DecodeString(tok); err == nil && len(raw) == 64 {
@@ -982,7 +988,12 @@ func TOTPCode(secret string) string {
 
 // SeedUser plants an account in a reachable state directly in storage (same op for the model).
 func (m *M) SeedUser(pid, pw string, confirmed bool, attempts int, last, locked time.Duration, hasLast, hasLocked bool, otps []string, totpSecret, sms string, rec []string) {
-	u := &world.User{PID: pid, Email: pid, Confirmed: confirmed, AttemptCount: attempts, TOTPSecretKey: totpSecret, SMSPhoneNumber: sms}
+	m.SeedUserE(pid, pid, pw, confirmed, attempts, last, locked, hasLast, hasLocked, otps, totpSecret, sms, rec)
+}
+
+// SeedUserE: as SeedUser, with a contact e-mail address that may differ from the login identifier.
+func (m *M) SeedUserE(pid, email, pw string, confirmed bool, attempts int, last, locked time.Duration, hasLast, hasLocked bool, otps []string, totpSecret, sms string, rec []string) {
+	u := &world.User{PID: pid, Email: email, Confirmed: confirmed, AttemptCount: attempts, TOTPSecretKey: totpSecret, SMSPhoneNumber: sms}
 	if pw != "" {
 		h, _ := bcrypt.GenerateFromPassword([]byte(pw), bcrypt.MinCost)
 		u.Password = string(h)
@@ -1014,6 +1025,9 @@ func (m *M) SeedUser(pid, pw string, confirmed bool, attempts int, last, locked 
 	u.RecoveryCodes = strings.Join(rh, ",")
 	m.W.Store.Users[pid] = u
 	kv := []string{"pid=" + wire.Hex(pid), "pw=" + wire.Hex(pw), "conf=" + wire.Bool(confirmed), fmt.Sprintf("att=%d", attempts), "last=" + lastS, "locked=" + lockedS}
+	if email != pid {
+		kv = append(kv, "email="+wire.Hex(email))
+	}
 	if len(otps) > 0 {
 		kv = append(kv, "otps="+hexList(otps))
 	}
